@@ -68,6 +68,16 @@ OpenCall ==
           /\ api' = "lazy" /\ libfds' = AfterMeta(cfg)
   /\ UNCHANGED <<cfg, callerClosed, gen>>
 
+\* TdmsFile(source, keep_open=True): all data is read into memory AND the file stays open until close()
+CtorKeepOpen ==
+  /\ CanAct /\ api = "none" /\ cfg.index # "indexonly"
+  /\ IF MetaFault(cfg) \/ DataFault(cfg)
+     THEN /\ Act([op |-> "ctor_keep_open", raises |-> TRUE, fds |-> {"unspecified"}])      \* outside the statement
+          /\ api' = "open_failed" /\ libfds' = Opened(cfg)
+     ELSE /\ Act([op |-> "ctor_keep_open", raises |-> FALSE, fds |-> Opened(cfg), atmost |-> TRUE])
+          /\ api' = "eagerkeep" /\ libfds' = AfterMeta(cfg)
+  /\ UNCHANGED <<cfg, callerClosed, gen>>
+
 \* a read that needs the file, on the open object
 ReadData ==
   /\ CanAct /\ api = "lazy"
@@ -76,9 +86,9 @@ ReadData ==
 
 \* close() or leaving the with-block; may be repeated
 Close(how) ==
-  /\ CanAct /\ api \in {"lazy", "closed"}
+  /\ CanAct /\ api \in {"lazy", "closed", "eagerkeep", "eagerclosed"}
   /\ Act([op |-> how, raises |-> FALSE, fds |-> {}])
-  /\ api' = "closed" /\ libfds' = {}
+  /\ api' = (IF api \in {"eagerkeep", "eagerclosed"} THEN "eagerclosed" ELSE "closed") /\ libfds' = {}
   /\ UNCHANGED <<cfg, callerClosed, gen>>
 
 ReadAfterClose ==
@@ -88,8 +98,10 @@ ReadAfterClose ==
 
 \* eager data lives in memory and stays readable after the file was closed by the constructor
 ReadEager ==
-  /\ CanAct /\ api = "eager"
-  /\ Act([op |-> "read_data", raises |-> FALSE, fds |-> {}])
+  /\ CanAct /\ api \in {"eager", "eagerkeep", "eagerclosed"}
+  /\ IF api = "eagerkeep"
+     THEN Act([op |-> "read_data", raises |-> FALSE, fds |-> Opened(cfg), atmost |-> TRUE])     \* the file is still held
+     ELSE Act([op |-> "read_data", raises |-> FALSE, fds |-> {}])
   /\ UNCHANGED <<cfg, api, libfds, callerClosed, gen>>
 
 \* only metadata was read (read_metadata, or read of an index file alone): the file is closed, data reads raise
@@ -102,7 +114,7 @@ ReadMetaOnly ==
 \* A writer given a path may be entered again after its block was left: each block opens and closes its own files
 \* (a writer given streams drops them when its block is left and cannot be entered again).
 WriterWith(bodyRaises) ==
-  /\ CanAct /\ (api = "none" \/ (api = "written" /\ cfg.source = "path"))
+  /\ CanAct /\ (api = "none" \/ (api = "written" /\ cfg.source = "path" /\ \E i \in DOMAIN hist : hist[i].op = "writer_with"))
   /\ cfg.fault = "none" /\ cfg.index \in {"none", "index"}
   /\ Act([op |-> "writer_with", raises |-> bodyRaises, fds |-> {},
           during |-> IF cfg.source = "stream" THEN {} ELSE IF cfg.index = "index" THEN {"data", "index"} ELSE {"data"}])
@@ -112,36 +124,45 @@ WriterWith(bodyRaises) ==
 \* a chunk generator (channel.data_chunks() / TdmsFile.data_chunks()) is started on the open file and `taken' chunks
 \* are consumed (the input file has three chunks: two in its first segment, one in the second)
 StartStream ==
-  /\ CanAct /\ api = "lazy" /\ gen.kind = "none" /\ ~DataFault(cfg) /\ cfg.index # "indexonly"
-  /\ \E kd \in {"chan", "file"} : \E m \in {1, 2} :
+  /\ CanAct /\ api \in {"lazy", "eagerkeep"} /\ gen.kind = "none" /\ ~DataFault(cfg) /\ cfg.index # "indexonly"
+  /\ \E kd \in (IF api = "lazy" THEN {"chan", "file"} ELSE {"file"}) : \E m \in {1, 2} :
         /\ gen' = [kind |-> kd, taken |-> m]
         /\ Act([op |-> "stream_start", kind |-> kd, taken |-> m, raises |-> FALSE, fds |-> Opened(cfg), atmost |-> TRUE])
   /\ UNCHANGED <<cfg, api, libfds, callerClosed>>
 \* resuming it after close() is a read that needs the file: it raises, wherever the generator stands (inside a segment
 \* or at a segment boundary) and whoever supplied the file (path or caller's stream)
 StreamNextAfterClose ==
-  /\ CanAct /\ api = "closed" /\ gen.kind # "none"
+  /\ CanAct /\ api \in {"closed", "eagerclosed"} /\ gen.kind # "none"
   /\ Act([op |-> "stream_next", raises |-> TRUE, fds |-> {}])
   /\ gen' = [kind |-> "none", taken |-> 0]
   /\ UNCHANGED <<cfg, api, libfds, callerClosed>>
 
+\* TdmsWriter.defragment(source, destination path): when it returns, neither the source (if the library opened it) nor the
+\* destination is held open
+Defragment ==
+  /\ CanAct /\ api = "none" /\ cfg.fault = "none" /\ cfg.index \in {"none", "index"}
+  /\ Act([op |-> "defragment", raises |-> FALSE, fds |-> {}])
+  /\ api' = "written"
+  /\ libfds' = {}
+  /\ UNCHANGED <<cfg, callerClosed, gen>>
+
 \* write_segment on a writer whose block was left: refused, and nothing is (re)opened
 WriterLateWrite ==
-  /\ CanAct /\ api = "written"
+  /\ CanAct /\ api = "written" /\ \E i \in DOMAIN hist : hist[i].op = "writer_with"
   /\ Act([op |-> "late_write", raises |-> TRUE, fds |-> {}])
   /\ UNCHANGED <<cfg, api, libfds, callerClosed, gen>>
 
 Next == \/ ReadCall("read") \/ ReadCall("read_metadata") \/ OpenCall \/ ReadData \/ Close("close") \/ Close("exit_with")
         \/ ReadAfterClose \/ ReadEager \/ ReadMetaOnly \/ WriterWith(FALSE) \/ WriterWith(TRUE) \/ WriterLateWrite
-        \/ StartStream \/ StreamNextAfterClose
+        \/ StartStream \/ StreamNextAfterClose \/ CtorKeepOpen \/ Defragment
 Spec == Init /\ [][Next]_vars
 
 (* ------------------------------ properties ------------------------------ *)
 \* C20: after read / read_metadata returned or raised, after close() or the with-block, and after the writer's
 \* with-block, the library holds no descriptor
-NoLibraryFd == api \in {"eager", "meta", "failed", "closed", "written"} => libfds = {}
+NoLibraryFd == api \in {"eager", "meta", "failed", "closed", "written", "eagerclosed"} => libfds = {}
 \* only the data file may stay open, and only while the object is lazily open on a path
-OnlyDataWhileLazy == libfds # {} => (api \in {"lazy", "open_failed"} /\ cfg.source = "path")
+OnlyDataWhileLazy == libfds # {} => (api \in {"lazy", "open_failed", "eagerkeep"} /\ cfg.source = "path")
 CallerStreamsNeverClosed == ~callerClosed
 ReadAfterCloseRaises == (obs.op = "read_data" /\ api \in {"closed", "meta"}) => obs.raises
 
